@@ -8,6 +8,7 @@
 #include <unistd.h>
 #include <fcntl.h>
 #include <time.h>
+#include <signal.h>
 
 using namespace mv;
 
@@ -113,6 +114,8 @@ int main(int argc, char** argv)
         const double budget = opt.count("seconds") ? atof(opt["seconds"].c_str()) : 0;
         const std::string cur = out + "/w" + std::to_string(worker) + ".cur.mvh";
         const Checks C = checksFor(prop);
+        const unsigned caseTimeout = opt.count("case-timeout") ? unsigned(atoi(opt["case-timeout"].c_str())) : 60;
+        signal(SIGALRM, [](int) { const char m[] = "TIMEOUT case did not finish\n"; ssize_t w = write(1, m, sizeof m - 1); (void) w; _exit(87); });
         Labels total;
         std::set<uint64_t> nontrivialHashes;
         std::vector<std::string> samples;
@@ -125,7 +128,9 @@ int main(int argc, char** argv)
             Program P = generate(prop, R, tier);
             const std::string txt = P.text();
             writeFile(cur, txt);
+            alarm(caseTimeout);         // a case that does not finish is inconclusive (exit 87), never a violation
             RunResult r = runCase(P, tier);
+            alarm(0);
             done++;
             steps += long(P.steps.size());
             for (auto& kv : r.labels.c) { total.add(kv.first, kv.second); total.add("cases_with." + kv.first); }
